@@ -11,7 +11,22 @@ import (
 	"github.com/uber-go/tally/v4/m3"
 )
 
-func init() { register("c09", "C09", "c09", suiteC09) }
+func init() {
+	register("c09", "C09", "c09", suiteC09)
+	register("allocfault", "C09", "", suiteAllocFault)
+}
+
+// allocfault: the fault scenario alone (run by the checks of C01, C02, C03, C09 and C10: a lock left behind by a
+// failed first use stops the delivery of every metric of that scope)
+func suiteAllocFault(c *Ctx) {
+	c.Cov.Rule = "a cached reporter whose Allocate call panics once for one name (the Prometheus reporter does that on a registration conflict unless told otherwise), the application recovers; for each metric kind, on the root and on a subscope: a later first use of another name, recording, a report pass and the root's Close must complete within 2 s (watchdog), and what was recorded on the second name must be delivered; every case nontrivial"
+	for _, kind := range []string{"counter", "gauge", "timer", "histogram"} {
+		for _, onSub := range []bool{false, true} {
+			c09AllocFault(c, kind, onSub)
+		}
+	}
+	c.Cov.Traces = c.Cov.Evaluations
+}
 
 var c09Sanitize bool
 
@@ -154,11 +169,6 @@ func runC09(c *Ctx, ch Chooser, kind string, cached bool, nThreads int, onSub bo
 func suiteC09(c *Ctx) {
 	c.Cov.Rule = "lock-step: 2-4 threads ask one live scope (root or subscope) for the same counter/gauge/timer/histogram, each thread parked between the read-locked probe and the write lock (and between repeated calls); plain and cached reporter; each step validated against Model.GetOrCreate; oracle Spec.C09.holds on returned object identities, Allocate calls and delivered increments; nontrivial = at least two threads missed before any created; distinct by trace. Exhaustive enumeration for 2 and 3 threads; free-running stress of mixed first use + recording + report passes"
 	kinds := []string{"counter", "gauge", "timer", "histogram"}
-	for _, kind := range kinds {
-		for _, onSub := range []bool{false, true} {
-			c09AllocFault(c, kind, onSub)
-		}
-	}
 	n := c.N(200, 2000)
 	for i := 0; i < n; i++ {
 		r := c.Rng.Fork()
@@ -307,6 +317,20 @@ func c09AllocFault(c *Ctx, kind string, onSub bool) {
 	}()
 	select {
 	case v := <-done:
+		if v == nil {
+			// what was recorded on the second name after the fault is delivered
+			n := 0
+			for _, e := range rc.log.Snapshot() {
+				if (e.Kind == "counter" || e.Kind == "gauge" || e.Kind == "timer" || e.Kind == "samples") && strings.HasSuffix(rc.Meta[e.ID].Name, "ok") {
+					n++
+				}
+			}
+			if n == 0 {
+				c.Cov.Fail(Failure{Kind: "violated", Clause: "recorded-is-delivered", Signature: "c09-nothing-delivered-after-recovered-allocation-panic", Line: line,
+					Reply: "the value recorded on the second name was not delivered by the pass or by Close"})
+				return
+			}
+		}
 		if v != nil {
 			c.Cov.Fail(Failure{Kind: "crash", Clause: "no-panic", Signature: "c09-panic-after-recovered-allocation-panic", Line: line, Reply: fmt.Sprint(v)})
 			return
